@@ -108,9 +108,9 @@ def run(ctx: Ctx):
 
     # ------------------------------------------------------------- MC + REPLAY (lists)
     if ctx.quick:
-        consts = {"MaxLen": 2, "MaxItems": 2, "Alpha": {92, 110, 59, 44, 37, 10, 97}}
+        consts = {"MaxLen": 2, "MaxItems": 2, "Alpha": {92, 110, 59, 44, 37, 10, 97, 34}}
     else:
-        consts = {"MaxLen": 2, "MaxItems": 2, "Alpha": {92, 110, 78, 59, 44, 58, 37, 50, 67, 10, 13, 97}}
+        consts = {"MaxLen": 2, "MaxItems": 2, "Alpha": {92, 110, 78, 59, 44, 58, 37, 50, 67, 10, 13, 97, 34}}
     r = ctx.mc("MC_TextList", cfg_text(spec="Spec", constants=consts, invariants=["InvWire", "InvKF", "Vec"]),
                workers=4 if ctx.quick else 12, timeout=3000)
     for v in r.prints:
